@@ -61,6 +61,24 @@ func (c c15Case) String() string {
 func c15Encode(c c15Case, img1, img2 *image.NRGBA, icc, exif, xmp []byte) ([]byte, error) {
 	var buf bytes.Buffer
 	kind, typ, _ := strings.Cut(c.kind, "/")
+	kind, variant, _ := strings.Cut(kind, "@")
+	// option variants: the rarely used options under which an encode could start to look at the metadata
+	lossyO := webp.EncoderOptions{Quality: 60, Method: 3}
+	losslessO := webp.EncoderOptions{Lossless: true, Quality: 60, Method: 3}
+	switch variant {
+	case "targetsize":
+		lossyO.TargetSize, lossyO.Pass = 250, 6
+	case "targetpsnr":
+		lossyO.TargetPSNR, lossyO.Pass = 36, 4
+	case "sharp-m6":
+		lossyO.UseSharpYUV, lossyO.Method, lossyO.Segments, lossyO.Partitions = true, 6, 2, 2
+	case "aq50":
+		lossyO.AlphaQuality, lossyO.AlphaFiltering, lossyO.Exact = 50, 2, true
+	case "q100m6":
+		losslessO.Quality, losslessO.Method, losslessO.Exact = 100, 6, true
+	case "q10m0":
+		losslessO.Quality, losslessO.Method = 10, 0
+	}
 	var src image.Image = img1
 	switch typ {
 	case "rgba": // premultiplied storage: exercises the un-premultiply code of every encode path
@@ -76,10 +94,12 @@ func c15Encode(c c15Case, img1, img2 *image.NRGBA, icc, exif, xmp []byte) ([]byt
 	}
 	switch kind {
 	case "lossy", "lossy+alpha":
-		err := webp.Encode(&buf, src, &webp.EncoderOptions{Quality: 60, Method: 3, ICC: icc, EXIF: exif, XMP: xmp})
+		lossyO.ICC, lossyO.EXIF, lossyO.XMP = icc, exif, xmp
+		err := webp.Encode(&buf, src, &lossyO)
 		return buf.Bytes(), err
 	case "lossless", "lossless+alpha":
-		err := webp.Encode(&buf, src, &webp.EncoderOptions{Lossless: true, Quality: 60, Method: 3, ICC: icc, EXIF: exif, XMP: xmp})
+		losslessO.ICC, losslessO.EXIF, losslessO.XMP = icc, exif, xmp
+		err := webp.Encode(&buf, src, &losslessO)
 		return buf.Bytes(), err
 	case "anim1", "anim2", "anim2lossy":
 		e := animation.NewEncoder(&buf, img1.Rect.Dx(), img1.Rect.Dy(), &animation.EncodeOptions{Quality: 60, Lossless: c.kind != "anim2lossy", LoopCount: 2})
@@ -108,7 +128,8 @@ func checkC15(args []string) {
 	run.Rule = "product of output kind x metadata subset x blob class (all subsets with one class each; pairwise class mixes seeded); every written file is read by the strict TLA+ container reader: blobs byte-equal, VP8X flags = exactly the chunks present, image chunks byte-identical to the same encode without metadata; distinct = distinct (kind, classes) cases with at least one blob"
 	run.Assumptions = []string{"an empty (zero-length) blob may be stored as an empty chunk or omitted", "spec/Riff.tla is the reference reader"}
 	rng := rand.New(rand.NewSource(run.Seed))
-	kinds := []string{"lossy", "lossy+alpha", "lossless", "lossless+alpha", "lossless+alpha/rgba", "lossy+alpha/rgba", "lossless/gray", "lossless+alpha/generic", "anim1", "anim2", "anim2lossy"}
+	kinds := []string{"lossy", "lossy+alpha", "lossless", "lossless+alpha", "lossless+alpha/rgba", "lossy+alpha/rgba", "lossless/gray", "lossless+alpha/generic", "anim1", "anim2", "anim2lossy",
+		"lossy@targetsize", "lossy+alpha@targetsize", "lossy@targetpsnr", "lossy@sharp-m6", "lossy+alpha@aq50", "lossless@q100m6", "lossless+alpha@q10m0"}
 	var cases []c15Case
 	classes := []int{2, 3, 4, 5, 6}
 	if run.Thorough() {
